@@ -42,6 +42,29 @@ func InitVisited(ctx context.Context) context.Context {
 	return ctx
 }
 
+// ForkVisited returns a context that carries a copy of the visited set of ctx
+// (or ctx itself if it has none). Sub-checks whose answers are combined by AND
+// or inverted by NOT must not see what their siblings have visited: a subject
+// set skipped as "already visited" counts as "not a member" there.
+func ForkVisited(ctx context.Context) context.Context {
+	set, ok := ctx.Value(visitedMapKey).(*stringSet)
+	if !ok {
+		return ctx
+	}
+	return context.WithValue(ctx, visitedMapKey, set.clone())
+}
+
+func (s *stringSet) clone() *stringSet {
+	s.l.Lock()
+	defer s.l.Unlock()
+
+	m := make(map[string]struct{}, len(s.m))
+	for k := range s.m {
+		m[k] = struct{}{}
+	}
+	return &stringSet{m: m}
+}
+
 func CheckAndAddVisited(ctx context.Context, current relationtuple.Subject) (context.Context, bool) {
 	set, ok := ctx.Value(visitedMapKey).(*stringSet)
 	if !ok {
